@@ -139,3 +139,21 @@ package schedulerplugin
 //@   loop 0,1 invariant ipamOK(p) && envOK(p) && listersOK(p) && p.podLockPool != p.dpLockPool && storeUnchanged()
 //@   loop 1 invariant forall k string :: (forall j int :: 0 <= j && j < idx ==> ipstr(ipInfos[j].FloatingIP.IP) != k) ==> ProvNode[k] == old(ProvNode[k])
 //@   loop 0 invariant ProvNode == old(ProvNode) && forall j int :: 0 <= j && j < idx ==> ipInfos[j].FloatingIP.PodUid == "" || pod.UID == "" || ipInfos[j].FloatingIP.PodUid == pod.UID
+
+// ---- allocateIP (bind): reuse, uid guard, provider assign (C01, C02, C03, C10, C13) ----
+// ASSUMED helpers: the node-subnet lookup only touches the plugin's own node cache; the pod's
+// requested ranges come out of encoding/json through IPRange.UnmarshalJSON and are well formed
+// (that decoder is under contract for C20).
+//@ func (*FloatingIPPlugin).queryNodeSubnet trusted
+//@   modifies map(p.nodeSubnet)
+//@   ensures result1 == nil ==> result0 != nil
+//@ func getPodCniArgs trusted
+//@   modifies fresh elemsof([]nets.IPRange), fresh elemsof(nets.IPRange), fresh elemsof(byte), fresh elemsof(constant.IPInfo), fresh nets.IPNet.*
+//@   ensures forall i int, r int {result0.RequestIPRange[i][r]} :: 0 <= i && i < len(result0.RequestIPRange) && 0 <= r && r < len(result0.RequestIPRange[i]) ==> nets.wfRange(result0.RequestIPRange[i][r])
+//@ func [WIP] (*FloatingIPPlugin).allocateIP
+//@   requires pod != nil && key != "" && ipamOK(p) && envOK(p)
+//@   ensures ipamOK(p)
+//@   ensures [WIP:bind-only-own-key-or-new] forall k string :: old(StoreDom[k]) && old(StoreKey[k]) != key ==> storeSameAt(k)
+//@   ensures [WIP:bind-never-frees] forall k string :: old(StoreDom[k]) ==> StoreDom[k]
+//@   ensures [WIP:bind-uid-guard] result1 == nil && result0 != nil && len(result0.RequestIPRange) == 0 ==> forall i int :: 0 <= i && i < len(result0.Common.IPInfos) ==> (let s = ipstr(result0.Common.IPInfos[i].IP.IP) in old(StoreDom[s]) && old(s in crd(p).allocatedFIPs) ==> old(StoreUid[s]) == "" || old(StoreUid[s]) == pod.UID)
+//@   modifies all
